@@ -186,6 +186,109 @@ async fn run_e2e(log: &Log, r: &mut Rng, rounds: u64, seed: u64) {
     }
 }
 
+/// (iii) the client's reply decoder: the real Client::create_udp_proxy against a scripted TLS server that speaks
+/// UDP-over-TCP itself and returns each reply as a length-prefixed packet cut at arbitrary positions across PSH frames
+/// (inside the two length bytes, inside the payload), sometimes two replies in one frame.
+async fn run_client_frag(log: &Log, r: &mut Rng, rounds: u64, seed: u64) {
+    use tokio::io::{AsyncReadExt, AsyncWriteExt};
+    let cfg = anytls_rs::util::tls::create_server_config().unwrap();
+    let acceptor = tokio_rustls::TlsAcceptor::from(cfg);
+    let listener = tokio::net::TcpListener::bind("127.0.0.1:0").await.unwrap();
+    let addr = listener.local_addr().unwrap().to_string();
+    // replies to send: (bytes of the packet stream, cut positions) are handed to the connection task
+    // the connection that carries the newest stream registers its sender here
+    let current: std::sync::Arc<std::sync::Mutex<Option<tokio::sync::mpsc::UnboundedSender<Vec<Vec<u8>>>>>> = Default::default();
+    let cur2 = current.clone();
+    let (up_tx, mut up_rx) = tokio::sync::mpsc::unbounded_channel::<Vec<u8>>();
+    tokio::spawn(async move { loop {
+        let Ok((tcp, _)) = listener.accept().await else { break };
+        let Ok(tls) = acceptor.accept(tcp).await else { continue };
+        let (mut rd, mut wr) = tokio::io::split(tls);
+        let (current, up_tx) = (cur2.clone(), up_tx.clone());
+        tokio::spawn(async move {
+            let (ptx, mut prx) = tokio::sync::mpsc::unbounded_channel::<Vec<Vec<u8>>>();
+            let mut pre = [0u8; 34];
+            if rd.read_exact(&mut pre).await.is_err() { return; }
+            let mut skip = vec![0u8; ((pre[32] as usize) << 8) | pre[33] as usize];
+            if rd.read_exact(&mut skip).await.is_err() { return; }
+            let mut buf: Vec<u8> = Vec::new(); let mut tmp = [0u8; 8192];
+            let mut ustream: Vec<u8> = Vec::new(); let mut sid = 0u32; let mut prefaced = false; let mut acked = false;
+            loop {
+                tokio::select! {
+                    n = rd.read(&mut tmp) => {
+                        let n = match n { Ok(n) if n > 0 => n, _ => break };
+                        buf.extend_from_slice(&tmp[..n]);
+                        let (frames, trail) = parse_frames(&buf);
+                        for f in &frames {
+                            let payload = buf[f.off + 7..f.off + 7 + f.len].to_vec();
+                            if f.cmd == 4 { let _ = wr.write_all(&frame_bytes(10, 0, b"v=2")).await; }
+                            if f.cmd == 1 { sid = f.sid; ustream.clear(); acked = false; prefaced = false; *current.lock().unwrap() = Some(ptx.clone()); }
+                            if f.cmd == 8 { let _ = wr.write_all(&frame_bytes(9, f.sid, &[])).await; }
+                            if f.cmd == 2 && f.sid == sid { ustream.extend_from_slice(&payload); }
+                        }
+                        let keep = buf.len() - trail; buf.drain(..keep);
+                        // destination preface (magic name) + initial request, then length-prefixed datagrams
+                        // (the client waits for the answer to its open before it sends the initial request)
+                        if !acked && ustream.len() >= 2 && ustream[0] == 3 {
+                            let need = 2 + ustream[1] as usize + 2;
+                            if ustream.len() >= need { ustream.drain(..need); acked = true; let _ = wr.write_all(&frame_bytes(7, sid, &[])).await; let _ = wr.flush().await; }
+                        }
+                        if acked && !prefaced && ustream.len() >= 8 { ustream.drain(..8); prefaced = true; }
+                        while prefaced && ustream.len() >= 2 { let l = ((ustream[0] as usize) << 8) | ustream[1] as usize; if ustream.len() < 2 + l { break; } let d: Vec<u8> = ustream[2..2 + l].to_vec(); ustream.drain(..2 + l); let _ = up_tx.send(d); }
+                        let _ = wr.flush().await;
+                    }
+                    pieces = prx.recv() => {
+                        let Some(pieces) = pieces else { break };
+                        for p in pieces { let _ = wr.write_all(&frame_bytes(2, sid, &p)).await; let _ = wr.flush().await; tokio::time::sleep(Duration::from_millis(1)).await; }
+                    }
+                }
+            }
+        });
+    } });
+    let pool = SessionPoolConfig { check_interval: Duration::from_secs(30), idle_timeout: Duration::from_secs(60), min_idle_sessions: 1 };
+    let client = net::make_client(&addr, net::PASSWORD, PaddingFactory::default(), pool);
+    for round in 0..rounds {
+        let mut ev: Vec<Value> = Vec::new();
+        let target: SocketAddr = "127.0.0.1:9".parse().unwrap();
+        let Ok(Ok(local)) = tokio::time::timeout(Duration::from_secs(5), client.create_udp_proxy("127.0.0.1:0", target)).await else { continue };
+        let app = UdpSocket::bind("127.0.0.1:0").await.unwrap();
+        // the association exists once the first datagram has gone up
+        let first = pgen::fill(pgen::key(seed, round, 9, 1), 0, 10);
+        ev.push(json!({"ev": "usend", "dir": "up", "len": 10}));
+        let _ = app.send_to(&first, local).await;
+        match tokio::time::timeout(Duration::from_secs(3), up_rx.recv()).await { Ok(Some(d)) => ev.push(json!({"ev": "urecv", "dir": "up", "len": d.len(), "match": d == first, "src": true})), _ => {} }
+        let kd = pgen::key(seed, round, 9, 2);
+        let mut off = 0u64;
+        for _ in 0..r.range(2, 8) {
+            // one or two replies, encoded, cut into frames at arbitrary positions
+            let k = if r.chance(1, 4) { 2 } else { 1 };
+            let mut stream: Vec<u8> = Vec::new(); let mut lens = Vec::new();
+            for _ in 0..k { let len = if r.chance(1, 2) { *r.pick(&SMALL) } else { *r.pick(&BIG) }; let p = pgen::fill(kd, off + lens.iter().sum::<usize>() as u64, len); stream.extend_from_slice(&(len as u16).to_be_bytes()); stream.extend_from_slice(&p); lens.push(len); ev.push(json!({"ev": "usend", "dir": "down", "len": len})); }
+            let mut cuts: Vec<usize> = vec![1];                                  // between the two length bytes
+            if r.chance(1, 2) { cuts.push(2); }
+            for _ in 0..r.below(4) { cuts.push(r.range(1, stream.len() as u64 - 1) as usize); }
+            if r.chance(1, 3) { cuts.clear(); }
+            cuts.sort(); cuts.dedup();
+            let mut pieces: Vec<Vec<u8>> = Vec::new(); let mut prev = 0usize;
+            for c in cuts { if c > prev && c < stream.len() { pieces.push(stream[prev..c].to_vec()); prev = c; } }
+            pieces.push(stream[prev..].to_vec());
+            // a piece must fit a frame
+            let pieces: Vec<Vec<u8>> = pieces.into_iter().flat_map(|p| p.chunks(60000).map(|c| c.to_vec()).collect::<Vec<_>>()).collect();
+            if let Some(t) = current.lock().unwrap().as_ref() { let _ = t.send(pieces); }
+            for len in lens {
+                match recv_dgram(&app, 2500).await {
+                    Some((d, from)) => ev.push(json!({"ev": "urecv", "dir": "down", "len": d.len(), "match": pgen::matches(kd, off, &d), "src": from == local})),
+                    None => {}
+                }
+                off += len as u64;
+            }
+            if let Some((d, _)) = recv_dgram(&app, 3).await { ev.push(json!({"ev": "urecv", "dir": "down", "len": d.len(), "match": false, "src": true})); }
+        }
+        ev.push(json!({"ev": "end", "panics": 0}));
+        log.block(json!({"kind": "client-frag", "round": round}), ev);
+    }
+}
+
 pub fn run(args: &Args, log: &Log) -> Result<(), String> {
     let thorough = args.tier == "thorough";
     std::panic::set_hook(Box::new(|_| { PANICS.fetch_add(1, Ordering::SeqCst); }));
@@ -201,6 +304,7 @@ pub fn run(args: &Args, log: &Log) -> Result<(), String> {
             log.block(json!({"kind": "handler", "abstract": sc}), ev);
         }
         run_e2e(log, &mut r, if thorough { 60 } else { 8 }, args.seed).await;
+        run_client_frag(log, &mut r, if thorough { 80 } else { 10 }, args.seed).await;
     });
     rt.shutdown_timeout(Duration::from_millis(200));
     log.block(json!({"kind": "end"}), vec![json!({"ev": "end", "panics": PANICS.load(Ordering::SeqCst) - panics0})]);
